@@ -308,14 +308,14 @@ def run(chk):
     chk.rule("D3", "no store through aliases of the initial orbit or of arguments")
     chk.rule("D4", "derived caches invalidated / sources snapshotted")
     chk.rule("D8", "copy() completeness")
-    r08_1(chk)
-    r08_2(chk)
-    r08_3(chk)
-    r08_4(chk)
-    r08_6(chk)
-    d2(chk)
-    d3(chk)
-    d4(chk)
-    d8(chk)
+    chk.guard(r08_1, chk)
+    chk.guard(r08_2, chk)
+    chk.guard(r08_3, chk)
+    chk.guard(r08_4, chk)
+    chk.guard(r08_6, chk)
+    chk.guard(d2, chk)
+    chk.guard(d3, chk)
+    chk.guard(d4, chk)
+    chk.guard(d8, chk)
     chk.assume("StateVector.copy is a per-item copy (R15.1, C15); numpy arithmetic/slicing shallow-copies _data (__array_finalize__)")
     chk.assume("listeners are cleared at the start of each iteration: decided under C10 (R10.1)")
